@@ -115,25 +115,29 @@ UpdateAlloc(S, o, prop) ==
     IN [S EXCEPT !.tasks = [t \in DOMAIN S.tasks |->
           IF t[1] = o /\ t[2] \in DOMAIN prop /\ prop[t[2]] # S.tasks[t].pm
           THEN upd(t) ELSE S.tasks[t]]]
-ProcessSchedule(S, pid, prop, W) ==
+ProcessSchedule(S, pid, prop, ord) ==
     LET o == pid[2]
+        W == SeqToSet(ord)
         S1 == UpdateAlloc(S, o, prop)
         keyErr == \E k \in W : \E p \in Pred(o, k) : S1.tasks[Task(o, p)].m = NoM /\ p \notin W
         stErr == \E k \in W : S1.tasks[Task(o, k)].status # "UNSCHEDULED"
         S2 == [S1 EXCEPT !.tasks = [t \in DOMAIN S1.tasks |->
                   IF t[1] = o /\ t[2] \in W
-                  THEN [S1.tasks[t] EXCEPT !.status = "SCHEDULED", !.m = prop[t[2]]] ELSE S1.tasks[t]],
+                  THEN [S1.tasks[t] EXCEPT !.status = "SCHEDULED", !.m = prop[t[2]], !.alloc = S.now] ELSE S1.tasks[t]],
                          !.procs[pid].sched = [k \in DOMAIN prop \ W |-> prop[k]]]
         SpawnOne(T, k) == Spawn(T, TpPid(Task(o, k)), Loc(FALSE, 0, prop[k], "", EmptyFn))
-        order == SetToSeq(W)
     IN IF keyErr THEN Raise(S1, "KeyError")
        ELSE IF stErr THEN Raise(S1, "RuntimeError")
-       ELSE FoldLeft(SpawnOne, S2, order)
+       ELSE FoldLeft(SpawnOne, S2, ord)
+
+(* order in which the winners are handed to the cluster (dict order in the *)
+(* code); cfg.canon fixes one representative to keep model checking small *)
+Orders(W) == IF cfg.canon THEN {SetToSeq(W)} ELSE SetToSeqs(W)
 
 (* ---- one resume of allocate_tasks --------------------------------------- *)
 (* pv: provisioning outcome, prop: what the algorithm returned, W: the     *)
 (* entries the scheduler actually hands to the cluster                     *)
-ATRound(S, pid, pv, prop, W, delayedByAlg) ==
+ATRound(S, pid, pv, prop, ord, delayedByAlg) ==
     LET o == pid[2]
         loc0 == S.procs[pid]
         S0 == IF loc0.started THEN S
@@ -159,17 +163,17 @@ ATRound(S, pid, pv, prop, W, delayedByAlg) ==
                     IN Sleep(S6, pid, STEP)
                ELSE Sleep(S4, pid, STEP)
        ELSE IF DOMAIN prop = {} THEN Sleep(S3, pid, STEP)
-       ELSE LET S4 == ProcessSchedule(S3, pid, prop, W)
+       ELSE LET S4 == ProcessSchedule(S3, pid, prop, ord)
             IN IF S4.pend # "" THEN Die(S4, pid) ELSE Sleep(S4, pid, STEP)
 
 AlgRaises(S, o) ==
     \/ SplitRaises(S, o)
     \/ cfg.alg = "greedy" /\ GreedyRaises(S, o, Ready(S, o, Remaining(S, o)))
-ATStep(S, pid, pv, prop, W, d) ==
+ATStep(S, pid, pv, prop, ord, d) ==
     IF S.procs[pid].ph = "done" THEN EndProc(S, pid)
     ELSE IF AlgRaises(S, pid[2])
     THEN Die(Raise(S, IF SplitRaises(S, pid[2]) THEN "RuntimeError" ELSE "ValueError"), pid)
-    ELSE ATRound(S, pid, pv, prop, W, d)
+    ELSE ATRound(S, pid, pv, prop, ord, d)
 
 (* all successor states of an allocate_tasks resume *)
 ATChoices(S, pid) ==
@@ -178,8 +182,9 @@ ATChoices(S, pid) ==
         S0 == S
         rem == Remaining(S, o)
     IN IF loc.ph = "done" \/ AlgRaises(S, o)
-       THEN {[pv |-> [ok |-> FALSE, ms |-> {}], prop |-> EmptyFn, W |-> {}, d |-> FALSE]}
-       ELSE UNION { UNION { {[pv |-> pv, prop |-> prop, W |-> W, d |-> FALSE] : W \in Winners(ApplyProv(S, o, pv), prop)}
+       THEN {[pv |-> [ok |-> FALSE, ms |-> {}], prop |-> EmptyFn, ord |-> <<>>, d |-> FALSE]}
+       ELSE UNION { UNION { {[pv |-> pv, prop |-> prop, ord |-> ord, d |-> FALSE] :
+                               ord \in UNION {Orders(W) : W \in Winners(ApplyProv(S, o, pv), prop)}}
                             : prop \in Proposals(ApplyProv(S, o, pv), o, rem, pv, loc) }
                     : pv \in ProvOptions(S, o) }
 =============================================================================
